@@ -575,7 +575,7 @@ class XPathToken(Token[ta.XPathTokenType]):
 
             # Converts to float for lesser-greater operators (3.)
             if self.symbol in ('<', '<=', '>', '>='):
-                yield from product(map(float, left_values), map(float, right_values))
+                yield from product(map(get_double, left_values), map(get_double, right_values))
                 return
             elif self.parser.version == '1.0':
                 yield from product(left_values, right_values)
